@@ -43,7 +43,7 @@ def miri(chk):
     if os.path.exists(part):
         os.remove(part)
     env = dict(chk.ENV, MIRIFLAGS="-Zmiri-disable-isolation", CARGO_TARGET_DIR=tdir)
-    cmd = ["cargo", "+nightly", "miri", "run", "--offline", "--no-default-features", "--features", "ml-dsa-44", "--",
+    cmd = ["cargo", "+nightly", "miri", "run", "--release", "--offline", "--no-default-features", "--features", "ml-dsa-44", "--",
            "c16", "--tier", "quick", "--seed", chk.SEED, "--flavour", "miri", "--scale", "1", "--workers", "4", "--reduced", "1",
            "--only-set", "ml-dsa-44", "--evidence", part, "--replay-dir", os.path.join(chk.VERIF, "replays"), "--known", chk.KNOWN]
     t0 = time.time()
